@@ -108,7 +108,7 @@ structure RInv (x y : Nat) (a b c d : Int) (u v : Nat) : Prop where
   bd : |d| < 2 ^ 36
   phase : (a = 1 ∧ b = 0 ∧ c = 0 ∧ d = 1 ∧ u = x ∧ v = y) ∨
     (a = 0 ∧ b = 1 ∧ c = 1 ∧ d = 0 ∧ u = y ∧ v = x ∧ x < y) ∨
-    (u ≤ min x y ∧ 2 * v ≤ u)
+    (u ≤ min x y ∧ 2 * v ≤ u ∧ 2 ^ 24 ≤ u)
 
 theorem RInv_init (x y : Nat) : RInv x y 1 0 0 1 x y where
   relu := by simp
@@ -140,7 +140,7 @@ theorem RInv_cont {x y : Nat} {a b c d : Int} {u v : Nat} {a' b' c' d' : Int} {u
   · -- swap: only possible in the initial state
     have e5' := e5.symm; have e6' := e6.symm
     subst e1 e2 e3 e4 e5' e6'
-    rcases hinv.phase with ⟨rfl, rfl, rfl, rfl, rfl, rfl⟩ | ⟨_, _, _, _, rfl, rfl, hxy⟩ | ⟨_, h2⟩
+    rcases hinv.phase with ⟨rfl, rfl, rfl, rfl, rfl, rfl⟩ | ⟨_, _, _, _, rfl, rfl, hxy⟩ | ⟨_, h2, _⟩
     · exact ⟨r1, r2, hdet, Or.inl (by simp), Or.inr ⟨rfl, by simp⟩, Or.inl ⟨by simp, by simp⟩,
         by simp, by simp, by simp, by simp, Or.inr (Or.inl ⟨rfl, rfl, rfl, rfl, rfl, rfl, huv⟩)⟩
     · omega
@@ -177,13 +177,13 @@ theorem RInv_cont {x y : Nat} {a b c d : Int} {u v : Nat} {a' b' c' d' : Int} {u
     have hca := abs_le_max_natAbs_left a' b'
     have hcb := abs_le_max_natAbs_right a' b'
     have hphase : v ≤ min x y := by
-      rcases hinv.phase with ⟨_, _, _, _, rfl, rfl⟩ | ⟨_, _, _, _, rfl, rfl, hxy⟩ | ⟨h1, h2⟩ <;> omega
+      rcases hinv.phase with ⟨_, _, _, _, rfl, rfl⟩ | ⟨_, _, _, _, rfl, rfl, hxy⟩ | ⟨h1, h2, _⟩ <;> omega
     rcases hc with ⟨hrv, f1, f2, f3⟩ | ⟨hrv, f1, f2, f3⟩ <;> subst f1 f2 f3
     · -- ceiling step
       obtain ⟨k1, k2, k3⟩ := col_ceil hq1' hinv.colac hmac
       obtain ⟨l1, l2, l3⟩ := col_ceil hq1' hinv.colbd hmbd
       refine ⟨r1, r2, hdet, k1, l1, Or.inr ⟨k2, l2, by omega⟩, hinv.bc, hinv.bd, ?_, ?_,
-        Or.inr (Or.inr ⟨hphase, by omega⟩)⟩
+        Or.inr (Or.inr ⟨hphase, by omega, hv⟩)⟩
       · rcases k3 with k3 | k3
         · have : ((q : Int) + 2) * |a'| ≤ (q + 2) * ((max a'.natAbs b'.natAbs : Nat) : Int) :=
             mul_le_mul_of_nonneg_left hca (by omega)
@@ -200,7 +200,7 @@ theorem RInv_cont {x y : Nat} {a b c d : Int} {u v : Nat} {a' b' c' d' : Int} {u
       obtain ⟨k1, k2, k3⟩ := col_floor hq1' hinv.colac hmac
       obtain ⟨l1, l2, l3⟩ := col_floor hq1' hinv.colbd hmbd
       refine ⟨r1, r2, hdet, k1, l1, Or.inl ⟨k2, l2⟩, hinv.bc, hinv.bd, ?_, ?_,
-        Or.inr (Or.inr ⟨hphase, by omega⟩)⟩
+        Or.inr (Or.inr ⟨hphase, by omega, hv⟩)⟩
       · rcases k3 with k3 | k3
         · have : ((q : Int) + 2) * |a'| ≤ (q + 2) * ((max a'.natAbs b'.natAbs : Nat) : Int) :=
             mul_le_mul_of_nonneg_left hca (by omega)
@@ -406,6 +406,29 @@ theorem reduce64_spec (x y : Nat) (hx : x < W) (hy : y < W) :
   refine reduce64Loop_inv x y 70 1 0 0 1 x y (RInv_init x y) hx hy ⟨by decide, ?_⟩
   unfold W at hx hy
   split <;> omega
+
+
+/-- one column `(p, s)` of the reduce64 matrix against the reduced vector `(U, V)`:
+`|s U - p V| = X` bounds both entries by `2 X / U` -/
+theorem col_entry_bound {p s U V X : Int} (hU : 0 ≤ U) (hV : 0 ≤ V) (h2 : 2 * V ≤ U)
+    (hcol : Col p s) (hX : |s * U - p * V| = X) (hUX : U ≤ X) :
+    |s| * U ≤ 2 * X ∧ |p| * U ≤ 2 * X := by
+  have hX0 : 0 ≤ X := by rw [← hX]; exact abs_nonneg _
+  rcases hcol with hcol | ⟨rfl, hp1⟩
+  · have hs0 := abs_nonneg s
+    have hp0 := abs_nonneg p
+    have h1 : |s| * U - |p| * V ≤ X := by
+      have := abs_sub_abs_le_abs_sub (s * U) (p * V)
+      rw [abs_mul, abs_mul, abs_of_nonneg hU, abs_of_nonneg hV, hX] at this
+      exact this
+    have h3 : |p| * V ≤ |s| * V := mul_le_mul_of_nonneg_right hcol hV
+    have h4 : 2 * (|s| * V) ≤ |s| * U := by nlinarith
+    have h5 : |s| * U ≤ 2 * X := by linarith
+    exact ⟨h5, le_trans (mul_le_mul_of_nonneg_right hcol hU) h5⟩
+  · constructor
+    · simp; linarith
+    · have : |p| * U ≤ 1 * U := mul_le_mul_of_nonneg_right hp1 hU
+      linarith
 
 
 end Ymq.Gcd
